@@ -12,6 +12,16 @@ CHECKS = {
    "Trusts OpenSSL's SPKI encoding and OpenSSL/ring verification primitives; keys come from OpenSSL's RNG, so a seed fixes messages and load forms, not keys (failing keys are stored in the replay file).",
    "DESIGN.md 4 C15"),
 }
+CHECKS["C01"] = ("exploration",
+   "property-based testing (proptest) of the real daemon against a strict mock ACME CA; oracle = independent normalisation (own punycode, RFC 5952) + own DER walker over the CSR + key-file snapshot",
+   "Generated certificate configurations are run through the real acmed binary until the first post-operation hook; the mock CA records the newOrder and finalize bodies, which are judged against identifiers normalised independently and against the key file snapshotted by the hook recorder.",
+   "One issuance per case against a fault-free CA; cargo feature only zeroes poll/retry waits. Trusts OpenSSL for CSR signature verification.",
+   "DESIGN.md 4 C01")
+CHECKS["C19"] = ("exploration",
+   "property-based testing (proptest): differential of the period parser against an independent u128 reference; crash oracle (one process per case) over mutated configurations and a hazard catalogue",
+   "Period strings from the documented grammar with 64-bit edge numbers, noise and mutations are parsed by the real parser inside the in-crate probe and compared with an independent reference; configurations (field mutations, structural hazards) are loaded by the real binary one process per case and any signal, panic or start-up hang is a violation.",
+   "Dev-profile build (overflow checks on); bounded hang detection (model-predicted idle cases excluded).",
+   "DESIGN.md 4 C19")
 PENDING = {}
 
 props = [json.loads(l) for l in open("/verif/properties.jsonl")]
